@@ -643,3 +643,64 @@ func runC03Extra8b(c *core.Check) {
 		c.Undecided(rule, "internal/data_model/arg-minmax-readers", 0, fmt.Sprintf("expected 5 fields in the two reader structs, found %d", n))
 	}
 }
+
+// ---- C18-R12 (F30): a tail slice `x[len(x)-k:]` needs k <= len(x) ----------------------
+
+func init() {
+	Extend("C18", runC18Extra8b,
+		Mutant{Name: "second-unguarded-tail-slice-of-session-bytes", File: "internal/vkgo/binlog/fsbinlog/binlog.go", Rule: "C18-R12",
+			Old: "					_, _ = hash.Write(b.buffEx.hashBuff2)\n", New: "					_, _ = hash.Write(b.buffEx.hashBuff2[len(b.buffEx.hashBuff2)-levRotateSize:])\n"})
+}
+
+func runC18Extra8b(c *core.Check) {
+	c.Decides += " R12 in fsbinlog every tail slice x[len(x)-k:] is taken only where k <= len(x) was established (the bytes kept for the first chunk's hash are those of the current writer session only; after a restart late in the first chunk fewer than k are held and Append panics at the first rotation — known finding F30)."
+	const rule = "C18-R12"
+	c.Rule(rule, "K1 guard dominance", 1, "every Slice whose low bound is len(x)-k of the sliced value x is dominated by !(len(x) < k) / (k <= len(x)) or has a constant-foldable bound")
+	n := 0
+	for _, fn := range c.Prog.FuncsIn("internal/vkgo/binlog/fsbinlog") {
+		name := core.FuncName(fn)
+		ord := 0
+		for _, b := range fn.Blocks {
+			for _, in := range b.Instrs {
+				sl, ok := in.(*ssa.Slice)
+				if !ok || sl.Low == nil {
+					continue
+				}
+				sub, ok := sl.Low.(*ssa.BinOp)
+				if !ok || sub.Op != token.SUB {
+					continue
+				}
+				lenCall, ok := sub.X.(*ssa.Call)
+				if !ok || core.CalleeName(&lenCall.Call) != "builtin len" {
+					continue
+				}
+				if core.Expr(lenCall.Call.Args[0]) != core.Expr(sl.X) {
+					continue
+				}
+				n++
+				ord++
+				lx, k := core.Expr(sub.X), core.Expr(sub.Y)
+				guarded := false
+				for _, g := range core.Facts(b) {
+					if len(g.Alts) != 1 {
+						continue
+					}
+					l := g.Alts[0]
+					if l.Op != token.LSS {
+						continue
+					}
+					x, y := core.Expr(l.X), core.Expr(l.Y)
+					// !(len < k)  or  (k-1 < len) forms; accept !(len < k) and (k < len)
+					if (!l.Pol && x == lx && y == k) || (l.Pol && x == k && y == lx) {
+						guarded = true
+					}
+				}
+				c.Require(guarded, rule, fmt.Sprintf("%s/tail-slice#%d", name, ord), sl.Pos(), "tail slice taken only when enough bytes are held",
+					name+" slices "+core.Expr(sl.X)+" from len-"+k+" without having established "+k+" <= len: when fewer bytes are held the slice expression panics (slice bounds out of range)")
+			}
+		}
+	}
+	if n == 0 {
+		c.Undecided(rule, "internal/vkgo/binlog/fsbinlog/tail-slices", 0, "no tail slice found")
+	}
+}
